@@ -143,6 +143,8 @@ def _gc_packets(sc):
             visit(spec['base'])
         if spec.get('digest_of') is not None:
             visit(spec['digest_of'])
+        if spec.get('digest_from') is not None:
+            visit(spec['digest_from'])
     for op in sc.get('ops', []):
         if 'pkt' in op:
             visit(op['pkt'])
